@@ -104,6 +104,15 @@ class Shard:
     def inconc(self, reason: str):
         self.inconclusive[reason] = self.inconclusive.get(reason, 0) + 1
 
+    def ambient_log(self, level: Optional[str] = None):
+        """Context manager: jasm's logger at a randomly drawn level (what --info / --debug set) for the duration of one judged case.
+        The level never changes a result; the draw is counted in the evidence."""
+        from . import real
+        level = level or self.rng.choice(["warning"] * 6 + ["info"] + ["debug"] * 3)
+        self.event("cases_run_with_log_level_" + level)
+        self.last_log_level = level
+        return real.log_level(level)
+
     def disagreement(self, case: dict, why: str, key: Optional[str] = None):
         """A refuting observation. Attributed to open finding `key` if listed, else a violation."""
         if key is not None and key in self.open_keys:
